@@ -39,7 +39,9 @@ RULE = ('chains of 1..3 planes on a fresh Wavefront: amplitude/OPD/mask each sca
         'monolithic or segmented (mask cube from a random labelling, so bounding boxes overlap), pixelscale '
         'None/scalar/pair on both sides incl. inconsistent ones, Pupil focal lengths, per-segment tilt lists; after every '
         'step wavelength, pixelscale, focal_length, shape, .field, .intensity are compared, finally .insert(out, weight) '
-        'with prior content and dyadic weights; pixel scales differing by 1e-3..1e-17 relative / 1e-8..1e-20 absolute at scales 1, '
+        'with prior content and dyadic weights; array attributes as ndarray subclasses (masked with/without flags, matrix, metadata '
+        'subclass, memmap; constructor and setters; caller memory unchanged); amplitudes scaled by 2^-30..2^-43 with un-scaling; '
+        'lentil.Tilt planes with non-default scalar amplitude/opd (kwargs or assigned); pixel scales differing by 1e-3..1e-17 relative / 1e-8..1e-20 absolute at scales 1, '
         '1e-3, 5e-6, 4e-9 (scalar and per-axis, one axis equal): refused exactly when unequal as floats; lentil.Tilt planes and tilted incoming wavefronts in the chains, the input '
         'wavefront looked at again afterwards; masks as float/int/bool/uint8; plane-object histories: 2-4 multiplies on ONE '
         'plane with amplitude/opd/mask updates (setter and in place) and repeated/different wavelengths, each compared with '
@@ -265,10 +267,11 @@ def rnd_plane(rng, L, maxn):
     return pl, (n, m)
 
 
-def tilt_plane(x, y):
-    """lentil.Tilt(x, y): a plane with default attributes that appends itself to every field's tilt list"""
-    return {'kind': 'Tilt', 'x': x, 'y': y, 'amp': {'s': [1, 0]}, 'opd': {'s': 0}, 'mask': None, 'pix': None,
-            'focal': None, 'tilt': []}
+def tilt_plane(x, y, amp=None, opd=0, assign=False):
+    """lentil.Tilt(x, y, amplitude=, opd=): a mask-less plane (default: amplitude 1, opd 0) that appends itself to every
+    field's tilt list; scalar amplitude / opd are legal Plane kwargs and settable attributes (assign=True)"""
+    return {'kind': 'Tilt', 'x': x, 'y': y, 'amp': {'s': amp or [1, 0]}, 'opd': {'s': opd}, 'mask': None, 'pix': None,
+            'focal': None, 'tilt': [], 'assign': assign}
 
 
 def rnd_case(rng, maxn):
@@ -297,7 +300,12 @@ def rnd_case(rng, maxn):
         c['wtilt'] = [str(Fraction(rng.randint(-4, 4), 8)), str(Fraction(rng.randint(-4, 4), 8))]
     # lentil.Tilt planes anywhere in the chain (before and after segmented planes)
     for _ in range(rng.choice([0, 0, 1, 1, 2])):
-        planes.insert(rng.randint(0, len(planes)), tilt_plane(str(Fraction(rng.randint(-4, 4), 8)), str(Fraction(rng.randint(-4, 4), 8))))
+        nd = rng.random() < 0.5
+        planes.insert(rng.randint(0, len(planes)),
+                      tilt_plane(str(Fraction(rng.randint(-4, 4), 8)), str(Fraction(rng.randint(-4, 4), 8)),
+                                 amp=rng.choice(GAUSS) if nd and rng.random() < 0.7 else None,
+                                 opd=rng.randint(1, 2 * L) if nd and L > 1 and rng.random() < 0.7 else 0,
+                                 assign=rng.random() < 0.4))
     # pixel scales: mostly consistent, sometimes refused
     base = rnd_pix(rng)
     for pl in planes:
@@ -314,6 +322,18 @@ def rnd_case(rng, maxn):
             R, Cc = shape
         c['insert'] = {'out': [[rng.randint(-3, 5) for _ in range(Cc)] for _ in range(R)],
                        'w': str(rng.choice([1, 1, 2, Fraction(1, 2), Fraction(3, 4), -1, 0, Fraction(5, 2)]))}
+    # array attributes as ndarray subclasses holding the same samples; amplitudes 2^-30 .. 2^-43 times smaller (exact)
+    if rng.random() < 0.3:
+        form = rng.choice(SUBFORMS)
+        for pl in planes:
+            if pl['kind'] != 'Tilt':
+                pl['aform'] = form
+    if rng.random() < 0.15:
+        for pl in planes:
+            if pl['kind'] != 'Tilt':
+                pl['ascale'] = rng.choice([30, 33, 37, 40, 43])
+        if c['insert'] is not None:      # a tiny contribution added to O(1) prior content is lost in float
+            c['insert']['out'] = [[0 for _ in row] for row in c['insert']['out']]
     return c
 
 
@@ -417,6 +437,8 @@ def rnd_phist(rng, maxn):
         if not (info['shape_mismatch'] or info['zero_mask']):
             break
     pl['kind'] = rng.choice(['Plane', 'Pupil'])
+    if rng.random() < 0.25:
+        pl['aform'] = rng.choice(SUBFORMS)
     pl['focal'] = rng.choice([None, '2']) if pl['kind'] == 'Pupil' else None
     pl['pix'] = None
     cur = copy.deepcopy(pl)
@@ -629,7 +651,8 @@ def enc_mask(mk):
 def enc_plane(pl, L, lam):
     if pl['kind'] == 'Tilt':
         # lentil.Tilt(x=a, y=b) stores self.x = b, self.y = a; the model carries the stored attributes
-        return [2] + C.enc_q(float(F(pl['y']))) + C.enc_q(float(F(pl['x'])))
+        return ([2] + C.enc_q(float(F(pl['y']))) + C.enc_q(float(F(pl['x'])))
+                + C.enc_c((F(pl['amp']['s'][0]), F(pl['amp']['s'][1]))) + C.enc_q(F(pl['opd']['s']) * lam / L))
     out = [0 if pl['kind'] == 'Plane' else 1]
     amp, opd, mk = pl['amp'], pl['opd'], pl['mask']
     out += enc_amp(amp) + enc_opd(opd, L, lam) + enc_mask(mk)
@@ -832,13 +855,17 @@ def mk_plane(pl, L, lam, keep=None):
     lentil = C.import_lentil()
     if pl['kind'] == 'Tilt':
         kw = {}
-        if pl.get('tamp') is not None:          # a tilt-type plane is a Plane: scalar amplitude / opd are legal kwargs
-            z = cnum(pl['tamp'])
+        if pl['amp']['s'] != [1, 0]:            # a tilt-type plane is a Plane: scalar amplitude / opd are legal kwargs
+            z = cnum(pl['amp']['s'])
             kw['amplitude'] = z.real if z.imag == 0 else z
-        if pl.get('topd') is not None:
-            kw['opd'] = float(F(pl['topd']) * lam / L)
-        t = lentil.Tilt(x=float(F(pl['x'])), y=float(F(pl['y'])), **kw)
-        return t
+        if pl['opd']['s'] != 0:
+            kw['opd'] = float(F(pl['opd']['s']) * lam / L)
+        if pl.get('assign'):
+            t = lentil.Tilt(x=float(F(pl['x'])), y=float(F(pl['y'])))
+            for k, v in kw.items():
+                setattr(t, k, v)
+            return t
+        return lentil.Tilt(x=float(F(pl['x'])), y=float(F(pl['y'])), **kw)
     kw = {}
     form = pl.get('aform')
     fac = 2.0 ** (-pl['ascale']) if pl.get('ascale') else 1.0       # exact power-of-two scaling of the amplitude
@@ -913,10 +940,12 @@ def observe(w):
 def run_phist(c):
     lentil = C.import_lentil()
     L, lam = c['L'], F(c['lam'])
+    keep = []
     try:
-        p = mk_plane(c['plane'], L, lam)
+        p = mk_plane(c['plane'], L, lam, keep)
     except Exception as e:
         return {'err': type(e).__name__}
+    form = c['plane'].get('aform')
     inputs = {}
     last = None
     res = []
@@ -940,7 +969,7 @@ def run_phist(c):
                 for i, j in a['edits']:
                     p.amplitude[i, j] = cnum(v['a'][i][j]) if np.iscomplexobj(p.amplitude) else float(v['a'][i][j][0])
             elif 'a' in v:
-                p.amplitude = np_attr(v['a'])
+                p.amplitude = subclass_form(np_attr(v['a']), form)
             else:
                 z = cnum(v['s'])
                 p.amplitude = z.real if z.imag == 0 else z
@@ -950,7 +979,7 @@ def run_phist(c):
                 for i, j in a['edits']:
                     p.opd[i, j] = float(F(v['a'][i][j]) * lam / L)
             elif 'a' in v:
-                p.opd = np.array([[float(F(k) * lam / L) for k in row] for row in v['a']], dtype=float)
+                p.opd = subclass_form(np.array([[float(F(k) * lam / L) for k in row] for row in v['a']], dtype=float), form)
             else:
                 p.opd = float(F(v['s']) * lam / L)
         else:
@@ -982,25 +1011,40 @@ def run_impl(c):
                          tilt=None if not c['wtilt'] else [float(F(c['wtilt'][0])), float(F(c['wtilt'][1]))])
     w0 = w
     res = {'steps': [observe(w)], 'err': None, 'insert': None}
+    keep = []
+    f = 1.0            # product of the power-of-two amplitude scalings applied so far (undone before comparing)
     for k, pl in enumerate(c['planes']):
         try:
-            p = mk_plane(pl, L, lam)
+            p = mk_plane(pl, L, lam, keep)
             w = w * p
         except Exception as e:
             res['err'] = {'step': k, 'err': type(e).__name__}
             res['input_after'] = observe(w0)
             return res
-        res['steps'].append(observe(w))
+        f *= 2.0 ** (-pl['ascale']) if pl.get('ascale') else 1.0
+        st = observe(w)
+        if f != 1.0:
+            st['field'], st['intensity'] = unscale_view(st['field'], f), unscale_view(st['intensity'], f * f)
+        res['steps'].append(st)
     res['input_after'] = observe(w0)       # the wavefront the chain started from, looked at again afterwards
+    res['memory'] = memory_changed(keep)
     ins = c['insert']
     if ins is not None:
         out = np.array(ins['out'], dtype=float)
         try:
             r = w.insert(out, weight=float(F(ins['w'])))
-            res['insert'] = {'arr': [[complex(v) for v in row] for row in np.asarray(r).tolist()]}
+            res['insert'] = unscale_view({'arr': [[complex(v) for v in row] for row in np.asarray(r).tolist()]}, f * f)
         except Exception as e:
             res['insert'] = {'err': type(e).__name__}
     return res
+
+
+def unscale_view(v, f):
+    if 'arr' in v:
+        return {'arr': [[x / f for x in row] for row in v['arr']]}
+    if 'v' in v:
+        return {'v': v['v'] / f}
+    return v
 
 
 # ------------------------------------------------------------------ comparison
@@ -1201,6 +1245,8 @@ def oracle_phist(c, impl):
 
 
 def oracle(c, impl):
+    if isinstance(impl, dict) and impl.get('memory'):
+        return impl['memory'] + ' by the multiplications'
     if c['op'] == 'phist':
         return oracle_phist(c, impl)
     if c['op'] == 'views':
